@@ -49,8 +49,9 @@ SUBST = {}
 _subst_guard = set()
 
 
-def let_substitutions(root):
-    """immutable locals bound exactly once in the whole body by `let x = <call|op|field|lit expr>`"""
+def let_substitutions(root, deep=False):
+    """immutable locals bound exactly once in the whole body by `let x = <call|op|field|lit expr>`
+    (deep: also `let x = <expr>.await` and `let x = <expr>?`, which desc() renders as `await <expr>` / `<expr>?`)"""
     from . import thir as _t
     counts = {}
     inits = {}
@@ -66,7 +67,8 @@ def let_substitutions(root):
             p = n["p"]
             if p.get("k") == "bind" and "sub" not in p and p.get("mode") == "BindingMode(No, Not)" and isinstance(n.get("i"), dict):
                 init = _t.peel(n["i"])
-                if isinstance(init, dict) and (init.get("k") in ("call", "bin", "logic", "un", "field", "lit") or matches_as_eq(init) is not None):
+                if isinstance(init, dict) and (init.get("k") in ("call", "bin", "logic", "un", "field", "lit") or matches_as_eq(init) is not None
+                                               or (deep and init.get("k") == "match" and (init.get("src") == "AwaitDesugar" or str(init.get("src", "")).startswith("TryDesugar")))):
                     inits[p["n"]] = n["i"]
         elif k == "match":
             for a in n["arms"]:
